@@ -115,6 +115,9 @@ func coRun(dest, src, via string) (got string) {
 			got = fmt.Sprint("panic: ", p)
 		}
 	}()
+	if dest == "record" {
+		return coRecord(src, via)
+	}
 	data := coSource(src)
 	type holder struct {
 		V  any
@@ -193,6 +196,24 @@ func coRun(dest, src, via string) (got string) {
 			}))
 		}
 		newDest, show = func() any { return new(string) }, func(p any) string { return *p.(*string) }
+	case "ptr-slice-int":
+		ps := z.Ptr(z.Slice(z.Int()))
+		// a schema option applied to the pointer reaches the pointed-to schema
+		z.WithCoercer(func(d any) (any, error) {
+			s, ok := d.(string)
+			if !ok {
+				return nil, fmt.Errorf("not a string")
+			}
+			return strings.Split(s, ";"), nil
+		})(ps)
+		sch = ps
+		newDest, show = func() any { return new(*[]int) }, func(p any) string {
+			pp := *p.(**[]int)
+			if pp == nil {
+				return "nil"
+			}
+			return fmt.Sprint(*pp)
+		}
 	case "ptr-int", "ptr-int-beside-coercer":
 		if opt == "coercer:plus100" {
 			sch = z.Ptr(z.Int(z.WithCoercer(plus100)))
@@ -320,6 +341,57 @@ func coRun(dest, src, via string) (got string) {
 	panic(via)
 }
 
+type coBase struct{ Name string }
+type coPlain struct {
+	Name string
+	N    int
+}
+type coEmb struct {
+	coBase
+	N int
+}
+type coEmbPtr struct {
+	*coBase
+	N int
+}
+
+// a Go struct handed to Parse as input data
+func coRecord(src, via string) string {
+	var in any
+	switch src {
+	case "gostruct:plain":
+		in = coPlain{"abc", 7}
+	case "gostruct:embedded":
+		in = coEmb{coBase{"abc"}, 7}
+	case "gostruct:embedded-ptr":
+		in = coEmbPtr{&coBase{"abc"}, 7}
+	case "gostruct:embedded-nil-ptr":
+		in = coEmbPtr{nil, 7}
+	}
+	s := z.Struct(z.Schema{"Name": z.String(), "N": z.Int()})
+	var d struct {
+		Name string
+		N    int
+	}
+	var m z.ZogIssueMap
+	if via == "root" {
+		m = s.Parse(in, &d)
+	} else {
+		var w struct {
+			V struct {
+				Name string
+				N    int
+			}
+		}
+		m = z.Struct(z.Schema{"v": s}).Parse(map[string]any{"v": in}, &w)
+		d = w.V
+	}
+	if len(m) > 0 {
+		return fmt.Sprintf("issues=%d", len(m)-1)
+	}
+	return fmt.Sprintf("%s|%d", d.Name, d.N)
+}
+
 func coField(sch z.ZogSchema, base string, data any, finish func(int, bool, string) string, count func(z.ZogIssueMap, z.ZogIssueList) (int, bool), show func(any) string) string {
 	s := z.Struct(z.Schema{"v": sch})
 	in := map[string]any{"v": data}
@@ -354,6 +426,10 @@ func coField(sch z.ZogSchema, base string, data any, finish func(int, bool, stri
 		return finish(n, co, show(&d.V))
 	case base == "time":
 		var d struct{ V time.Time }
+		n, co := count(s.Parse(in, &d), nil)
+		return finish(n, co, show(&d.V))
+	case base == "ptr-slice-int":
+		var d struct{ V *[]int }
 		n, co := count(s.Parse(in, &d), nil)
 		return finish(n, co, show(&d.V))
 	case strings.HasPrefix(base, "ptr-int"):
